@@ -6,7 +6,7 @@ accepted -> consumed exactly its own octets; re-serialisation has header length 
 same class, and is a fixed point of a further parse/serialise pass (which is also what "own output re-parses byte-exactly" means)."""
 import warnings
 
-from vlib.h import ob
+from vlib.h import ob, native
 from pgpy.packet import Packet
 from pgpy.errors import PGPError
 
@@ -118,7 +118,12 @@ def fp_userid(form: int, n: int, i0: int, i1: int, i2: int) -> bool:
             for k in range(14):
                 if sym == k:
                     octs.append(UOCT[k])
-    return fixed_point(pack(13, bytes(octs), form), must_accept=True)
+    f = 0
+    for k in (0, 2, 3, 4, 5):
+        if form == k:
+            f = k
+    with native():            # the octets are concrete on this path; CrossHair's UTF-8 decoder model accepts encoded surrogates (ED BF 80), Python does not
+        return fixed_point(pack(13, bytes(octs), f), must_accept=True)
 
 
 @ob('O8.literal', 'Literal data packets: format octet, file name octets, time, data', 'header form in {new-1, new-5, old-1}; format octet symbolic; file name of 0..2 symbolic octets; '
